@@ -3,7 +3,8 @@
 
   `Gen.CBUF_INT_EXPRS` is regenerated from the cbuf.c of the tree under test on every run
   (harness/consts/cbuf.c: every statement that contains a binary `+` / `-`, `+=`, `-=`, `++`, `--`,
-  as `(function, statement without white space)`, in source order).  `intExprTable` below assigns to
+  white space removed, sorted and distinct -- the key is the statement alone, so that code moved into
+  another function is not a new expression).  `intExprTable` below assigns to
   each of them the CLASS of bound that keeps it inside a C `int` (the classification is made by
   hand, reading the code; what is mechanical is that NO statement escapes it):
 
@@ -44,123 +45,100 @@ def IntClass.bound (k : IntClass) (c : Cbuf) (len : Nat) : Nat :=
   | .lenDep => c.alloc + len + Gen.CBUF_CHUNK
   | .metaC => c.maxsize + (c.alloc - c.size)
 
-/-- (function of cbuf.c, statement, class), in source order -/
-def intExprTable : List (String × String × IntClass) := [
-  ("cbuf_create", "cb->alloc=minsize+1", .metaC),
-  ("cbuf_create", "cb->alloc+=2*CBUF_MAGIC_LEN", .metaC),
-  ("cbuf_create", "cb->data+=CBUF_MAGIC_LEN", .ptr),
-  ("cbuf_create", "memcpy(cb->data-CBUF_MAGIC_LEN,(void*)&cb->magic,CBUF_MAGIC_LEN)", .ptr),
-  ("cbuf_create", "memcpy(cb->data+cb->size+1,(void*)&cb->magic,CBUF_MAGIC_LEN)", .ptr),
-  ("cbuf_destroy", "memcpy(cb->data-CBUF_MAGIC_LEN,(void*)&cb->magic,CBUF_MAGIC_LEN)", .ptr),
-  ("cbuf_destroy", "memcpy(cb->data+cb->size+1,(void*)&cb->magic,CBUF_MAGIC_LEN)", .ptr),
-  ("cbuf_destroy", "cb->data-=CBUF_MAGIC_LEN", .ptr),
-  ("cbuf_free", "nfree=cb->size-cb->used", .diff),
-  ("cbuf_reused", "reused=(cb->i_out-cb->i_rep+(cb->size+1))%(cb->size+1)", .idxWrap),
-  ("cbuf_rewind", "reused=(src->i_out-src->i_rep+(src->size+1))%(src->size+1)", .idxWrap),
-  ("cbuf_rewind", "src->used+=len", .usedPlus),
-  ("cbuf_rewind", "src->i_out=(src->i_out-len+(src->size+1))%(src->size+1)", .idxWrap),
-  ("cbuf_peek_line", "n=cbuf_find_unread_line(src,len-1,&lines)", .diff),
-  ("cbuf_peek_line", "m=MIN(n,len-1)", .diff),
-  ("cbuf_read_line", "n=cbuf_find_unread_line(src,len-1,&lines)", .diff),
-  ("cbuf_read_line", "m=MIN(n,len-1)", .diff),
-  ("cbuf_replay_line", "n=cbuf_find_replay_line(src,len-1,&lines,&nl)", .diff),
-  ("cbuf_replay_line", "m=MIN(n,len-1-nl)", .diff),
-  ("cbuf_replay_line", "dstbuf[m++]='\\n'", .lenDep),
-  ("cbuf_replay_line", "n+=nl", .lenDep),
-  ("cbuf_rewind_line", "src->used+=n", .usedPlus),
-  ("cbuf_rewind_line", "src->i_out=(src->i_out-n+(src->size+1))%(src->size+1)", .idxWrap),
-  ("cbuf_write_line", "if((len==0)||(srcbuf[len-1]!='\\n'))", .diff),
-  ("cbuf_write_line", "len++", .lenDep),
-  ("cbuf_write_line", "nfree=dst->size-dst->used", .diff),
-  ("cbuf_write_line", "nfree+=cbuf_grow(dst,len-nfree)", .usedPlus),
-  ("cbuf_write_line", "if(len>dst->size-dst->used)", .diff),
-  ("cbuf_write_line", "ndrop+=len-dst->size", .lenDep),
-  ("cbuf_write_line", "ncopy-=ndrop", .diff),
-  ("cbuf_write_line", "psrc+=ndrop", .ptr),
-  ("cbuf_write_line", "ndrop+=d", .lenDep),
-  ("cbuf_write_line", "if(srcbuf[len-1]!='\\n')", .diff),
-  ("cbuf_replay_to_fd", "len=src->size-src->used", .diff),
-  ("cbuf_write_from_fd", "len=dst->size-dst->used", .diff),
-  ("cbuf_find_replay_line", "++chars", .lenDep),
-  ("cbuf_find_replay_line", "if(cb->data[(cb->i_out+cb->size)%(cb->size+1)]!='\\n')", .idxWrap),
-  ("cbuf_find_replay_line", "--chars", .counter),
-  ("cbuf_find_replay_line", "++lines", .counter),
-  ("cbuf_find_replay_line", "--l", .counter),
-  ("cbuf_find_replay_line", "i=(i+cb->size)%(cb->size+1)", .idxWrap),
-  ("cbuf_find_replay_line", "++n", .counter),
-  ("cbuf_find_replay_line", "--lines", .counter),
-  ("cbuf_find_replay_line", "m=n-1", .diff),
-  ("cbuf_find_replay_line", "++l", .counter),
-  ("cbuf_find_unread_line", "++n", .counter),
-  ("cbuf_find_unread_line", "--chars", .counter),
-  ("cbuf_find_unread_line", "--lines", .counter),
-  ("cbuf_find_unread_line", "++l", .counter),
-  ("cbuf_find_unread_line", "i=(i+1)%(cb->size+1)", .idxWrap),
-  ("cbuf_get_mem", "*psrcbuf+=len", .ptr),
-  ("cbuf_put_mem", "*pdstbuf+=len", .ptr),
-  ("cbuf_copier", "nfree=dst->size-dst->used", .diff),
-  ("cbuf_copier", "nfree+=cbuf_grow(dst,len-nfree)", .usedPlus),
-  ("cbuf_copier", "len=MIN(len,dst->size-dst->used)", .diff),
-  ("cbuf_copier", "*ndropped=MAX(0,len-dst->size+dst->used)", .usedPlus),
-  ("cbuf_copier", "n=ncopy-dst->size", .diff),
-  ("cbuf_copier", "i_src=(i_src+n)%(src->size+1)", .idxWrap),
-  ("cbuf_copier", "ncopy-=n", .diff),
-  ("cbuf_copier", "n=MIN(((src->size+1)-i_src),((dst->size+1)-i_dst))", .succ),
-  ("cbuf_copier", "i_dst=(i_dst+n)%(dst->size+1)", .idxWrap),
-  ("cbuf_copier", "nleft-=n", .diff),
-  ("cbuf_copier", "nrepl=(dst->i_out-dst->i_rep+(dst->size+1))%(dst->size+1)", .idxWrap),
-  ("cbuf_copier", "dst->used=MIN(dst->used+ncopy,dst->size)", .usedPlus),
-  ("cbuf_copier", "assert(i_dst==(dst->i_in+ncopy)%(dst->size+1))", .idxWrap),
-  ("cbuf_copier", "if(ncopy>nfree-nrepl)", .diff),
-  ("cbuf_copier", "dst->i_rep=(dst->i_in+1)%(dst->size+1)", .idxWrap),
-  ("cbuf_dropper", "cb->used-=len", .diff),
-  ("cbuf_dropper", "cb->i_out=(cb->i_out+len)%(cb->size+1)", .idxWrap),
-  ("cbuf_dropper", "if((cb->size-cb->used>CBUF_CHUNK)&&(cb->size>cb->minsize))", .diff),
-  ("cbuf_reader", "n=MIN(nleft,(src->size+1)-i_src)", .succ),
-  ("cbuf_reader", "nleft-=m", .diff),
-  ("cbuf_reader", "i_src=(i_src+m)%(src->size+1)", .idxWrap),
-  ("cbuf_reader", "n=len-nleft", .diff),
-  ("cbuf_replayer", "n=(src->i_out-src->i_rep+(src->size+1))%(src->size+1)", .idxWrap),
-  ("cbuf_replayer", "i_src=(src->i_out-len+(src->size+1))%(src->size+1)", .idxWrap),
-  ("cbuf_replayer", "n=MIN(nleft,(src->size+1)-i_src)", .succ),
-  ("cbuf_replayer", "nleft-=m", .diff),
-  ("cbuf_replayer", "i_src=(i_src+m)%(src->size+1)", .idxWrap),
-  ("cbuf_replayer", "n=len-nleft", .diff),
-  ("cbuf_writer", "nfree=dst->size-dst->used", .diff),
-  ("cbuf_writer", "nfree+=cbuf_grow(dst,len-nfree)", .usedPlus),
-  ("cbuf_writer", "len=MIN(len,dst->size-dst->used)", .diff),
-  ("cbuf_writer", "n=MIN(nleft,(dst->size+1)-i_dst)", .succ),
-  ("cbuf_writer", "nleft-=m", .diff),
-  ("cbuf_writer", "i_dst=(i_dst+m)%(dst->size+1)", .idxWrap),
-  ("cbuf_writer", "n=len-nleft", .diff),
-  ("cbuf_writer", "nrepl=(dst->i_out-dst->i_rep+(dst->size+1))%(dst->size+1)", .idxWrap),
-  ("cbuf_writer", "dst->used=MIN(dst->used+n,dst->size)", .lenDep),
-  ("cbuf_writer", "assert(i_dst==(dst->i_in+n)%(dst->size+1))", .idxWrap),
-  ("cbuf_writer", "if(n>nfree-nrepl)", .diff),
-  ("cbuf_writer", "dst->i_rep=(dst->i_in+1)%(dst->size+1)", .idxWrap),
-  ("cbuf_writer", "*ndropped=MAX(0,n-nfree)", .diff),
-  ("cbuf_grow", "size_meta=cb->alloc-cb->size", .diff),
-  ("cbuf_grow", "m=cb->alloc+n", .lenDep),
-  ("cbuf_grow", "m=m+(CBUF_CHUNK-(m%CBUF_CHUNK))", .lenDep),
-  ("cbuf_grow", "m=MIN(m,(cb->maxsize+size_meta))", .metaC),
-  ("cbuf_grow", "data-=CBUF_MAGIC_LEN", .ptr),
-  ("cbuf_grow", "cb->size=m-size_meta", .diff),
-  ("cbuf_grow", "cb->data+=CBUF_MAGIC_LEN", .ptr),
-  ("cbuf_grow", "memcpy(cb->data+cb->size+1,(void*)&cb->magic,CBUF_MAGIC_LEN)", .ptr),
-  ("cbuf_grow", "n=(size_old+1)-cb->i_rep", .succ),
-  ("cbuf_grow", "m=(cb->size+1)-n", .succ),
-  ("cbuf_grow", "memmove(cb->data+m,cb->data+cb->i_rep,n)", .ptr),
-  ("cbuf_grow", "cb->i_out+=m-cb->i_rep", .succ),
-  ("cbuf_grow", "return(cb->size-size_old)", .diff),
-  ("cbuf_shrink", "if(cb->size-cb->used<=CBUF_CHUNK)", .diff),
-  ("cbuf_is_valid", "assert(memcmp(cb->data-CBUF_MAGIC_LEN,(void*)&cb->magic,CBUF_MAGIC_LEN)==0)", .ptr),
-  ("cbuf_is_valid", "assert(memcmp(cb->data+cb->size+1,(void*)&cb->magic,CBUF_MAGIC_LEN)==0)", .ptr),
-  ("cbuf_is_valid", "nfree=(cb->i_out-cb->i_in-1+(cb->size+1))%(cb->size+1)", .idxWrap),
-  ("cbuf_is_valid", "assert(cb->size-cb->used==nfree)", .diff)
+/-- (statement, class, the functions of cbuf.c it occurs in -- documentation only), sorted by statement -/
+def intExprTable : List (String × IntClass × String) := [
+  ("*ndropped=MAX(0,len-dst->size+dst->used)", .usedPlus, "cbuf_copier"),
+  ("*ndropped=MAX(0,n-nfree)", .diff, "cbuf_writer"),
+  ("*pdstbuf+=len", .ptr, "cbuf_put_mem"),
+  ("*psrcbuf+=len", .ptr, "cbuf_get_mem"),
+  ("++chars", .lenDep, "cbuf_find_replay_line"),
+  ("++l", .counter, "cbuf_find_replay_line, cbuf_find_unread_line"),
+  ("++lines", .counter, "cbuf_find_replay_line"),
+  ("++n", .counter, "cbuf_find_replay_line, cbuf_find_unread_line"),
+  ("--chars", .counter, "cbuf_find_replay_line, cbuf_find_unread_line"),
+  ("--l", .counter, "cbuf_find_replay_line"),
+  ("--lines", .counter, "cbuf_find_replay_line, cbuf_find_unread_line"),
+  ("assert(cb->size-cb->used==nfree)", .diff, "cbuf_is_valid"),
+  ("assert(i_dst==(dst->i_in+n)%(dst->size+1))", .idxWrap, "cbuf_writer"),
+  ("assert(i_dst==(dst->i_in+ncopy)%(dst->size+1))", .idxWrap, "cbuf_copier"),
+  ("assert(memcmp(cb->data+cb->size+1,(void*)&cb->magic,CBUF_MAGIC_LEN)==0)", .ptr, "cbuf_is_valid"),
+  ("assert(memcmp(cb->data-CBUF_MAGIC_LEN,(void*)&cb->magic,CBUF_MAGIC_LEN)==0)", .ptr, "cbuf_is_valid"),
+  ("cb->alloc+=2*CBUF_MAGIC_LEN", .metaC, "cbuf_create"),
+  ("cb->alloc=minsize+1", .metaC, "cbuf_create"),
+  ("cb->data+=CBUF_MAGIC_LEN", .ptr, "cbuf_create, cbuf_grow"),
+  ("cb->data-=CBUF_MAGIC_LEN", .ptr, "cbuf_destroy"),
+  ("cb->i_out+=m-cb->i_rep", .succ, "cbuf_grow"),
+  ("cb->i_out=(cb->i_out+len)%(cb->size+1)", .idxWrap, "cbuf_dropper"),
+  ("cb->size=m-size_meta", .diff, "cbuf_grow"),
+  ("cb->used-=len", .diff, "cbuf_dropper"),
+  ("data-=CBUF_MAGIC_LEN", .ptr, "cbuf_grow"),
+  ("dst->i_rep=(dst->i_in+1)%(dst->size+1)", .idxWrap, "cbuf_copier, cbuf_writer"),
+  ("dst->used=MIN(dst->used+n,dst->size)", .lenDep, "cbuf_writer"),
+  ("dst->used=MIN(dst->used+ncopy,dst->size)", .usedPlus, "cbuf_copier"),
+  ("dstbuf[m++]='\\n'", .lenDep, "cbuf_replay_line"),
+  ("i=(i+1)%(cb->size+1)", .idxWrap, "cbuf_find_unread_line"),
+  ("i=(i+cb->size)%(cb->size+1)", .idxWrap, "cbuf_find_replay_line"),
+  ("i_dst=(i_dst+m)%(dst->size+1)", .idxWrap, "cbuf_writer"),
+  ("i_dst=(i_dst+n)%(dst->size+1)", .idxWrap, "cbuf_copier"),
+  ("i_src=(i_src+m)%(src->size+1)", .idxWrap, "cbuf_reader, cbuf_replayer"),
+  ("i_src=(i_src+n)%(src->size+1)", .idxWrap, "cbuf_copier"),
+  ("i_src=(src->i_out-len+(src->size+1))%(src->size+1)", .idxWrap, "cbuf_replayer"),
+  ("if((cb->size-cb->used>CBUF_CHUNK)&&(cb->size>cb->minsize))", .diff, "cbuf_dropper"),
+  ("if((len==0)||(srcbuf[len-1]!='\\n'))", .diff, "cbuf_write_line"),
+  ("if(cb->data[(cb->i_out+cb->size)%(cb->size+1)]!='\\n')", .idxWrap, "cbuf_find_replay_line"),
+  ("if(cb->size-cb->used<=CBUF_CHUNK)", .diff, "cbuf_shrink"),
+  ("if(len>dst->size-dst->used)", .diff, "cbuf_write_line"),
+  ("if(n>nfree-nrepl)", .diff, "cbuf_writer"),
+  ("if(ncopy>nfree-nrepl)", .diff, "cbuf_copier"),
+  ("if(srcbuf[len-1]!='\\n')", .diff, "cbuf_write_line"),
+  ("len++", .lenDep, "cbuf_write_line"),
+  ("len=MIN(len,dst->size-dst->used)", .diff, "cbuf_copier, cbuf_writer"),
+  ("len=dst->size-dst->used", .diff, "cbuf_write_from_fd"),
+  ("len=src->size-src->used", .diff, "cbuf_replay_to_fd"),
+  ("m=(cb->size+1)-n", .succ, "cbuf_grow"),
+  ("m=MIN(m,(cb->maxsize+size_meta))", .metaC, "cbuf_grow"),
+  ("m=MIN(n,len-1)", .diff, "cbuf_peek_line, cbuf_read_line"),
+  ("m=MIN(n,len-1-nl)", .diff, "cbuf_replay_line"),
+  ("m=cb->alloc+n", .lenDep, "cbuf_grow"),
+  ("m=m+(CBUF_CHUNK-(m%CBUF_CHUNK))", .lenDep, "cbuf_grow"),
+  ("m=n-1", .diff, "cbuf_find_replay_line"),
+  ("memcpy(cb->data+cb->size+1,(void*)&cb->magic,CBUF_MAGIC_LEN)", .ptr, "cbuf_create, cbuf_destroy, cbuf_grow"),
+  ("memcpy(cb->data-CBUF_MAGIC_LEN,(void*)&cb->magic,CBUF_MAGIC_LEN)", .ptr, "cbuf_create, cbuf_destroy"),
+  ("memmove(cb->data+m,cb->data+cb->i_rep,n)", .ptr, "cbuf_grow"),
+  ("n+=nl", .lenDep, "cbuf_replay_line"),
+  ("n=(size_old+1)-cb->i_rep", .succ, "cbuf_grow"),
+  ("n=(src->i_out-src->i_rep+(src->size+1))%(src->size+1)", .idxWrap, "cbuf_replayer"),
+  ("n=MIN(((src->size+1)-i_src),((dst->size+1)-i_dst))", .succ, "cbuf_copier"),
+  ("n=MIN(nleft,(dst->size+1)-i_dst)", .succ, "cbuf_writer"),
+  ("n=MIN(nleft,(src->size+1)-i_src)", .succ, "cbuf_reader, cbuf_replayer"),
+  ("n=cbuf_find_replay_line(src,len-1,&lines,&nl)", .diff, "cbuf_replay_line"),
+  ("n=cbuf_find_unread_line(src,len-1,&lines)", .diff, "cbuf_peek_line, cbuf_read_line"),
+  ("n=len-nleft", .diff, "cbuf_reader, cbuf_replayer, cbuf_writer"),
+  ("n=ncopy-dst->size", .diff, "cbuf_copier"),
+  ("ncopy-=n", .diff, "cbuf_copier"),
+  ("ncopy-=ndrop", .diff, "cbuf_write_line"),
+  ("ndrop+=d", .lenDep, "cbuf_write_line"),
+  ("ndrop+=len-dst->size", .lenDep, "cbuf_write_line"),
+  ("nfree+=cbuf_grow(dst,len-nfree)", .usedPlus, "cbuf_write_line, cbuf_copier, cbuf_writer"),
+  ("nfree=(cb->i_out-cb->i_in-1+(cb->size+1))%(cb->size+1)", .idxWrap, "cbuf_is_valid"),
+  ("nfree=cb->size-cb->used", .diff, "cbuf_free"),
+  ("nfree=dst->size-dst->used", .diff, "cbuf_write_line, cbuf_copier, cbuf_writer"),
+  ("nleft-=m", .diff, "cbuf_reader, cbuf_replayer, cbuf_writer"),
+  ("nleft-=n", .diff, "cbuf_copier"),
+  ("nrepl=(dst->i_out-dst->i_rep+(dst->size+1))%(dst->size+1)", .idxWrap, "cbuf_copier, cbuf_writer"),
+  ("psrc+=ndrop", .ptr, "cbuf_write_line"),
+  ("return(cb->size-size_old)", .diff, "cbuf_grow"),
+  ("reused=(cb->i_out-cb->i_rep+(cb->size+1))%(cb->size+1)", .idxWrap, "cbuf_reused"),
+  ("reused=(src->i_out-src->i_rep+(src->size+1))%(src->size+1)", .idxWrap, "cbuf_rewind"),
+  ("size_meta=cb->alloc-cb->size", .diff, "cbuf_grow"),
+  ("src->i_out=(src->i_out-len+(src->size+1))%(src->size+1)", .idxWrap, "cbuf_rewind"),
+  ("src->i_out=(src->i_out-n+(src->size+1))%(src->size+1)", .idxWrap, "cbuf_rewind_line"),
+  ("src->used+=len", .usedPlus, "cbuf_rewind"),
+  ("src->used+=n", .usedPlus, "cbuf_rewind_line")
 ]
 
-/-- the (function, statement) pairs the table knows -/
-def intExprKeys : List (String × String) := intExprTable.map (fun r => (r.1, r.2.1))
+/-- the statements the table knows -/
+def intExprKeys : List String := intExprTable.map (fun r => r.1)
 
 /-- every class is safe: valid state, maximum size at most INT_MAX / 2, the meta cells of
     `cbuf_create`, and a caller's length that leaves room for one growth -/
